@@ -2,7 +2,7 @@
 import dm
 import gen_dm
 from props import _design as D
-from props._design import describe, nontrivial, unsupported, prepare, model_cmd, impl_obs, compare, CASE_TIMEOUT  # noqa: F401
+from props._design import describe, nontrivial, unsupported, prepare, impl_obs, CASE_TIMEOUT  # noqa: F401
 
 ID = "C09"
 PROP_FILES = ["Properties/C09.v"]
@@ -79,8 +79,38 @@ def gen(rng, tier):
                 if col["name"] == "junk":
                     col["name"] = ""
                     col["values"][0] = None
-        cases.append({"formula": fml, "frame": fr, "na": na, "missing": missing, "kind": na})
+        case = {"formula": fml, "frame": fr, "na": na, "missing": missing, "kind": na}
+        if na in ("drop", "error") and rng.random() < 0.12:
+            # infinities are values, not missing values: a row holding +inf and -inf is complete (the model has
+            # no infinite cells: such cases are decided by the oracle alone)
+            r0 = rng.randrange(nrows)
+            signs = rng.choice([("inf", "-inf"), ("-inf", "inf"), ("inf", "inf")])
+            for col in fr["columns"]:
+                if col["name"] == "x" and col["values"][r0] is not None:
+                    col["values"][r0] = signs[0]
+                if col["name"] == "w" and col["values"][r0] is not None:
+                    col["values"][r0] = signs[1]
+            case["formula"] = fml + " + x + w"
+            case["inf"] = True
+            case["kind"] = na + "-inf"
+        cases.append(case)
     return cases
+
+
+def _finite(c):
+    fr = {"columns": [dict(col, values=["0" if v in ("inf", "-inf") else v for v in col["values"]])
+                      for col in c["frame"]["columns"]]}
+    return dict(c, frame=fr)
+
+
+def model_cmd(c):
+    return D.model_cmd(_finite(c) if c.get("inf") else c)
+
+
+def compare(c, mo, obs):
+    if c.get("inf"):
+        return None
+    return D.compare(c, mo, obs)
 
 
 def key(c):
